@@ -48,7 +48,7 @@ def do_run(pid, tier, seed):
     prop = importlib.import_module('verifsim.props.' + pid.lower())
     cfg = prop.TIERS[tier]
     total = int(os.environ.get('VERIF_RUNS', cfg['runs']))
-    rdir = os.path.join(VERIF_DIR, 'replays')
+    rdir = os.environ.get('VERIF_REPLAY_DIR') or os.path.join(VERIF_DIR, 'replays')
     if os.path.isdir(rdir):
         for fn in os.listdir(rdir):
             if fn.startswith(pid + '-'):
@@ -189,7 +189,7 @@ def write_evidence(prop, pid, tier, seed, agg, distinct, samples, wall, checked,
         'wall_s': round(wall, 2),
         'violations': nviol,
     }
-    d = os.path.join(VERIF_DIR, 'evidence')
+    d = os.environ.get('VERIF_EVIDENCE_DIR') or os.path.join(VERIF_DIR, 'evidence')
     os.makedirs(d, exist_ok=True)
     with open(os.path.join(d, pid + '.json'), 'w') as f:
         json.dump(ev, f, indent=1, sort_keys=True, default=str)
